@@ -19,7 +19,7 @@ for pid in allp:
         "engine": "bqsa",
         "level_claimed": {"category": spec['level'], "text": spec['explanation'], "design_ref": f"DESIGN.md §3 {pid}"},
         "level_note": "; ".join(spec['assumptions']),
-        "technique": spec.get('technique', 'static analysis: repository-specific rules over the resolved syntax tree'),
+        "technique": spec.get('technique', 'static analysis: repository-specific rules over the resolved syntax tree, abstract type interpretation over the reconstructed registries, and path-sensitive abstract interpretation over uninterpreted terms (no solver, nothing executed)'),
     })
 m = {
     "version": 1,
